@@ -180,21 +180,24 @@ RWProduct(pairs, R1, R2, M, X) ==
 RWLead  == {<<"Uint8Array", "Uint16Array">>, <<"Int16Array", "Uint8Array">>}
 RWDiag  == {<<kd, kd>> : kd \in TA!KindSet}
 RWMixed == {<<"Int32Array", "Uint8Array">>, <<"Uint8ClampedArray", "Int16Array">>, <<"Uint32Array", "Uint16Array">>, <<"Int8Array", "Int32Array">>}
-RWQuickGrid == RWProduct(RWLead, RWReadsPre, RWCore, RWMeths, {VInt(9)})
+\* (operators with a parameter: TLC evaluates zero-arity constants eagerly in every JVM and worker)
+RWQuickGrid(q) == RWProduct(RWLead, RWReadsPre, RWCore, RWMeths, {VInt(9)})
                \cup {g \in RWProduct(RWDiag \cup RWMixed, RWCore, RWCore, {"idx"}, {VInt(9)}) : g.r1 = g.r2}
                \cup {g \in RWProduct(RWLead, {"join"}, {"sep"}, {"idx"}, {VInt(9)}) : TRUE}
-RWFullGrid == RWProduct(TA!KindSet \X TA!KindSet, RWReadsPre, RWReadsPost, RWMeths, {VInt(9)})
+RWFullGrid(q) == RWProduct(TA!KindSet \X TA!KindSet, RWReadsPre, RWReadsPost, RWMeths, {VInt(9)})
               \cup RWProduct(RWDiag \cup RWLead, RWCore, RWCore, {"idx", "setarr"}, {VInt(-2), VNumW(W1p5), VInt(300)})
-RWGrid == IF Quick THEN RWQuickGrid ELSE RWFullGrid
+RWGrid(q) == IF q THEN RWQuickGrid(q) ELSE RWFullGrid(q)
 RWOk(g) == (g.late => g.obs = 1) /\ RunOK(RWEvs(g), 1, TA!EmptyTS)
 \* the quick sub-grid contains every class of the family, inside the specified fragment:
-RWLaw == /\ \A kd \in TA!KindSet : \A r \in RWCore : \A w \in RWViews : \A o \in RWObs :                    \* every kind observes ...
-             \E g \in RWQuickGrid : RWObsKind(g) = kd /\ g.r1 = r /\ g.r2 = r /\ g.w = w /\ <<g.obs, g.late>> = o /\ RWOk(g)
-         /\ \A kd \in TA!KindSet : \E g \in RWQuickGrid : g.w = 4 /\ g.obs # 4 /\ g.kb = kd /\ RWOk(g)             \* ... and writes
+RWLaw(q) ==
+  LET QG == RWQuickGrid(q) IN
+         /\ \A kd \in TA!KindSet : \A r \in RWCore : \A w \in RWViews : \A o \in RWObs :                    \* every kind observes ...
+             \E g \in QG : RWObsKind(g) = kd /\ g.r1 = r /\ g.r2 = r /\ g.w = w /\ <<g.obs, g.late>> = o /\ RWOk(g)
+         /\ \A kd \in TA!KindSet : \E g \in QG : g.w = 4 /\ g.obs # 4 /\ g.kb = kd /\ RWOk(g)             \* ... and writes
          /\ \A r1 \in RWReadsPre : \A r2 \in RWCore : \A w \in RWViews : \A m \in RWMeths : \A o \in RWObs :      \* every combination
-             \E g \in RWQuickGrid : g.r1 = r1 /\ g.r2 = r2 /\ g.w = w /\ g.meth = m /\ <<g.obs, g.late>> = o /\ g.ka # g.kb /\ RWOk(g)
-         /\ \E g \in RWQuickGrid : g.r2 = "sep" /\ RWOk(g)
-         /\ (~Quick => \A g \in RWQuickGrid : \E h \in RWFullGrid : [h EXCEPT !.x = g.x] = g)
+             \E g \in QG : g.r1 = r1 /\ g.r2 = r2 /\ g.w = w /\ g.meth = m /\ <<g.obs, g.late>> = o /\ g.ka # g.kb /\ RWOk(g)
+         /\ \E g \in QG : g.r2 = "sep" /\ RWOk(g)
+         /\ (~q => QG \subseteq RWFullGrid(q))
 
 \* ---------------- Enum: print the case spaces ------------------------------------------------------------
 VARIABLES ph, cur, rec_i, tr_l, tr_st, tr_v       \* never names that library operators bind
@@ -275,7 +278,7 @@ EnumTA ==
      \E vals \in {<<>>, <<VInt(1)>>, <<VInt(1), VInt(2), VInt(3)>>, <<VNumW(W1p5), VInt(-1)>>, <<VNaN, VNumW(WPosInf), VNumW(WNegZero)>>} :
        LET c == TACase(<<ENewArr(kd, vals), EJoin(1, s), EToStr(1)>>)
        IN TA!EvOK(c.evs[2], RunTA(c.evs, 1, TA!EmptyTS)) /\ Emit(c)
-  \/ \E g \in RWGrid : RWOk(g) /\ Emit([ty |-> "ta", evs |-> RWEvs(g), fam |-> "rw"])
+  \/ \E g \in RWGrid(Quick) : RWOk(g) /\ Emit([ty |-> "ta", evs |-> RWEvs(g), fam |-> "rw"])
 EnumNext == ph = "start" /\ (EnumPlain \/ EnumCallbacks \/ EnumSort \/ EnumTA)
 EnumEmit == ph = "start" \/ PrintT(ToJson(cur))
 
@@ -357,7 +360,7 @@ TALaw(c) ==
      /\ \A i, j \in 1..Len(ts.views) :                                                   \* aliasing: same kind, same bytes => same elements
           LET v == ts.views[i]  u == ts.views[j]
           IN (v.kind = u.kind /\ v.buf = u.buf /\ v.off = u.off /\ v.len = u.len) => TA!ViewElems(ts, v) = TA!ViewElems(ts, u)
-LawsHold == CASE ph = "start" -> CodecLaws /\ RWLaw
+LawsHold == CASE ph = "start" -> CodecLaws /\ RWLaw(Quick)
               [] ph = "case" -> IF cur.ty = "call" THEN CallLaw(cur) ELSE TALaw(cur)
               [] OTHER -> TRUE
 
